@@ -83,8 +83,8 @@ void FS::put(const std::string& path, const std::string& data) {
     auto ino = std::make_shared<Inode>();
     ino->id = next_inode++;
     ino->data = data;
-    ino->closed_once = true;
     ino->had_final_name = !ends_with(path, ".part");
+    ino->closed_once = ino->had_final_name;   // (a leftover '.part' of a killed run is expected to be reopened and truncated)
     dir[path] = ino;
 }
 
